@@ -195,6 +195,8 @@ def suffix_for(fmt, variant):
 def kindsig(cell):
     k = kindclass(cell["kind"])
     sv = cell.get("suffix", "agree")
+    if cell.get("variant"):
+        k += "[trailing-garbage]" if cell["variant"].startswith("trailing") else "[later-record-damaged]"
     if sv == "agree":
         return k
     return k + ("(no-suffix)" if sv == "none" else "(suffix-says-otherwise)")
@@ -739,13 +741,24 @@ def repro_writer(fam, cell):
 
 # ---- driver ------------------------------------------------------------------------------------
 def run_family(ctx, part):
-    """part = (family spec, selector); selector = one reader function or "write" (partition only)."""
+    """part = (family spec, selector); selector = "<reader function>:<format>", "write", "history", "names", "extent" (partition only)."""
     spec, sel = part
     given = NAMES_GIVEN[ctx.seed % len(NAMES_GIVEN)]
+    if sel == "extent":
+        from mc.props import c09_extra
+
+        c09_extra.run_extent(ctx, spec[0], given)
+        return
     fam = Family(ctx, spec)
     try:
         ncell = 0
-        if sel == "history":
+        if sel == "names":
+            from mc.props import c09_extra
+
+            for cell in c09_extra.name_cells(ctx.seed):
+                c09_extra.run_name_cell(ctx, fam, cell, given)
+                ncell += 1
+        elif sel == "history":
             from mc.props import c09_hist
 
             for cell in c09_hist.history_cells(ctx.seed):
@@ -758,8 +771,9 @@ def run_family(ctx, part):
                 ncell += 1
             ctx.add_note("families", 1)
         else:
+            sfunc, _, sfmt = sel.partition(":")
             for cell in reader_cells(ctx.seed):
-                if cell["func"] != sel:
+                if cell["func"] != sfunc or (sfmt and cell["fmt"] != sfmt):
                     continue
                 run_reader_cell(ctx, fam, cell, given)
                 ncell += 1
@@ -775,6 +789,8 @@ def run(ctx):
         "x {parser molli, openbabel, unknown} and {dump,dumps} x formats x {path str, Path, open file stream, StringIO | returned string} "
         "x {mode a, w} x {Molecule, Structure, ConformerEnsemble object} x {named, renamed} x {writer molli, openbabel, unknown}, per input family; "
         "path cells with an explicit format additionally x {suffix agrees, suffix names another supported format, unsupported suffix, no suffix}; "
+        "plus NAME cells (c09_extra: multi-dot names, upper/mixed case suffix, dots in directory names, dot files, trailing dot, no suffix; fmt given and not given) "
+        "and EXTENT cells (c09_extra: multi-record texts with a damaged 2nd / 3rd / last record or trailing garbage through every reader, otype and name); "
         "plus HISTORY cells (c09_hist): every entry point called twice with a change in between (same path overwritten with other content, "
         "twin paths, result edited by the caller, str then Path, same relative path after chdir; two dumps into one target in every mode pair); "
         "every cell executed on the real entry point; a cell is non-trivial when it is a supported cell in which both the entry point and the "
@@ -788,6 +804,8 @@ def run(ctx):
         "cdxml has no class method on Molecule: the class-level codec is CDXMLFile (first fragment for load, every fragment for load_all, cdxf[key] for key=); key= together with name= is not enumerated (which wins is unspecified)",
         "after a dump that raises a documented error the target file's content is not examined (the property does not speak about it); a caller's stream must still be open",
         "an explicit fmt decides, the suffix of a path is only consulted when fmt is None (reader.py 'Default format is deduced from the file suffix', writer.py 'it can also be automatically guessed from the extension')",
+        "with fmt=None the format is pathlib's suffix of the path (after the LAST dot of the file name; a leading dot or a trailing dot gives no suffix); a suffix that is a supported format in other letter case may be refused with ValueError or read as that format",
+        "extent cells demand what the class method does with the same damaged multi-record argument: the same structures or the same exception class (single-structure loaders read the first record only)",
         "history cells demand nothing new: the second call must equal the class method applied at that moment; handing out the identical object twice is not by itself a violation, only a visible difference is",
         "dump/dumps kwargs pass-through and the `key` argument of the writers are not part of the matrix",
     ]
@@ -807,16 +825,46 @@ def run(ctx):
     hc = list(c09_hist.history_cells(ctx.seed))
     ctx.samples[-1:] = []  # keep room for a history cell among the samples
     ctx.sample({"family": fams[0][0], "cell": hc[len(hc) // 2]})
-    ctx.pmap(run_family, [(f, sel) for f in fams for sel in READERS + ("write", "history")])
+    from mc.props import c09_extra
+
+    ctx.bound["name_shape_cells_per_family"] = sum(1 for _ in c09_extra.name_cells(0))
+    ctx.bound["extent_cells_per_source"] = sum(1 for _ in c09_extra.extent_cells(0))
+    ctx.bound["extent_sources"] = list(c09_extra.EXTENT_SOURCES)
+    # (partition only: reader cells are split by function and format so that a large input does not
+    #  pin one worker)
+    rsel = tuple(f"{fn}:{fm}" for fn in READERS for fm in FMTS)
+    parts = []
+    for f in fams:
+        big = f[1] is not None and (FILES / f[1]).stat().st_size > 150_000
+        if big:
+            # name shapes and call histories are about dispatch, not content: they are run on every other
+            # family and skipped for the one 320 kB input (0.75 s per read)
+            ctx.bound.setdefault("families_without_name_and_history_cells", []).append(f[0])
+        parts += [(f, sel) for sel in rsel + (("write",) if big else ("write", "history", "names"))]
+    parts += [((src, None, None, None), "extent") for src in c09_extra.EXTENT_SOURCES]
+    ctx.pmap(run_family, parts)
 
 
 def replay(ctx, case):
     spec = tuple(case["family"])
+    if case["cell"].get("variant"):
+        from mc.props import c09_extra
+
+        fam = c09_extra.ExtentFamily(ctx, spec[0], case["cell"]["variant"])
+        try:
+            run_reader_cell(ctx, fam, case["cell"], case["given"])
+        finally:
+            fam.cleanup()
+        return
     fam = Family(ctx, spec)
     try:
         cell = case["cell"]
         if cell["op"] == "read":
             run_reader_cell(ctx, fam, cell, case["given"])
+        elif cell["op"] == "name":
+            from mc.props import c09_extra
+
+            c09_extra.run_name_cell(ctx, fam, cell, case["given"])
         elif cell["op"].startswith("hist-"):
             from mc.props import c09_hist
 
